@@ -244,6 +244,7 @@ def is_compile_time_constant(n):
     if isinstance(n, ast.BinOp): return is_compile_time_constant(n.left) and is_compile_time_constant(n.right)
     if isinstance(n, ast.Tuple): return all(is_compile_time_constant(e) for e in n.elts)
     if isinstance(n, ast.JoinedStr): return not any(isinstance(v, ast.FormattedValue) for v in n.values)
+    if isinstance(n, ast.Subscript): return is_compile_time_constant(n.value) and is_compile_time_constant(n.slice)
     return False
 
 
@@ -698,8 +699,8 @@ lambda p: (p, b, c, (p for z in T if c))
 
 def plan(tier):
     if tier == 'quick':
-        return dict(basic_n=7, other_n=5, ext_n=4, random=7000, rmin=6, rmax=26)
-    return dict(basic_n=8, other_n=7, ext_n=6, random=220000, rmin=6, rmax=34)
+        return dict(basic_n=7, other_n=5, ext_n=4, random=6000, rmin=6, rmax=26)
+    return dict(basic_n=8, other_n=6, ext_n=5, random=140000, rmin=6, rmax=34)
 
 
 def exhaustive_cases(G, p):
